@@ -124,6 +124,51 @@ func (th *thread) callBuiltin(caller *frame, fn *ssa.Builtin, args []value, site
 			m.goPanic("value method called using nil pointer")
 		}
 		return recv
+	case "SliceData":
+		x := args[0].(slicev)
+		if x.arr == nil || x.cap == 0 || x.off >= len(x.arr.elems) {
+			return ptr{}
+		}
+		return ptr{slot: &x.arr.elems[x.off], own: &x.arr.obj, arr: x.arr, idx: x.off}
+	case "StringData":
+		if strLen(args[0]) == 0 {
+			return ptr{}
+		}
+		return ptr{tok: strDataTok{args[0]}}
+	case "String":
+		p := args[0].(ptr)
+		n := int(m.argInt(args[1], "unsafe.String"))
+		if n == 0 {
+			return ""
+		}
+		if sd, ok := p.tok.(strDataTok); ok {
+			b := strBytes(sd.s)
+			return mkStr(b[:n])
+		}
+		if p.arr == nil || p.idx+n > len(p.arr.elems) {
+			panic(pathEnd{kind: endUnsupported, msg: "unsafe.String on non-array pointer"})
+		}
+		m.checkPoison(&p.arr.obj, "read")
+		return mkStr(p.arr.elems[p.idx : p.idx+n])
+	case "Slice":
+		p := args[0].(ptr)
+		n := int(m.argInt(args[1], "unsafe.Slice"))
+		if p.isNil() {
+			if n != 0 {
+				m.goPanic("unsafe.Slice: ptr is nil and len is not zero")
+			}
+			return slicev{}
+		}
+		if sd, ok := p.tok.(strDataTok); ok {
+			b := strBytes(sd.s)
+			a := m.newArr(len(b), "stringdata")
+			copy(a.elems, b)
+			return slicev{arr: a, len: n, cap: n}
+		}
+		if p.arr == nil || p.idx+n > len(p.arr.elems) {
+			panic(pathEnd{kind: endUnsupported, msg: "unsafe.Slice on non-array pointer"})
+		}
+		return slicev{arr: p.arr, off: p.idx, len: n, cap: n}
 	case "clear":
 		switch x := args[0].(type) {
 		case *mapv:
